@@ -189,6 +189,36 @@ func genFanin(rng *rand.Rand, k, maxJ, maxN int) RunSpec {
 	return rs
 }
 
+// genPileup steers towards the states in which results pile up unread in donec while the caller
+// keeps enqueueing dependency-free jobs: fail-fast, 2-4 workers, instant bodies, one early failure,
+// and an Emitter callback (it runs on the loop goroutine) that keeps the loop away from its select
+// for a few hundred microseconds at a time.  If the loop ever has more jobs outstanding than
+// donec can hold, the fail-fast exit leaves a worker blocked in its send for good (C06), and the
+// state reports show more executing jobs than workers (C19).
+func genPileup(rng *rand.Rand, k int) RunSpec {
+	n := 2 + rng.Intn(3)
+	J := n + 3 + rng.Intn(8)
+	rs := RunSpec{Run: k, Seed: rng.Int63(), J: J, N: n, Coe: false, CancelMode: "none", Emit: true,
+		EmitSleepUs: 100 + rng.Intn(400), PerturbP: []float64{0, 0.3}[rng.Intn(2)], PerturbMax: 40}
+	failing := 1 + rng.Intn(n)
+	for j := 1; j <= J; j++ {
+		rs.Deps = append(rs.Deps, []int{})
+		o := "ok"
+		if j == failing {
+			o = "err"
+		}
+		rs.Out = append(rs.Out, o)
+		rs.Cls = append(rs.Cls, j)
+		rs.BodyUs = append(rs.BodyUs, 0)
+		e := 0
+		if j > n {
+			e = rng.Intn(120)
+		}
+		rs.EnqUs = append(rs.EnqUs, e)
+	}
+	return rs
+}
+
 type stateEmitter struct {
 	x     *exec
 	sleep int
@@ -203,18 +233,18 @@ func (e *stateEmitter) Emit(s scheduler.State) {
 }
 
 type exec struct {
-	rs     RunSpec
-	log    *vt.APILog
-	errs   map[int]error // class -> error value
-	cancel context.CancelFunc
-	cmu    sync.Mutex
-	cdone  bool
-	cbegun bool
-	inBody int32
+	rs      RunSpec
+	log     *vt.APILog
+	errs    map[int]error // class -> error value
+	cancel  context.CancelFunc
+	cmu     sync.Mutex
+	cdone   bool
+	cbegun  bool
+	inBody  int32
 	nostamp bool
 	col     *vt.Collector
 	gate    func(j int) // scripted runs: blocks the body of job j until released
-	over    int32 // set when the run has been judged; late timers must not log into the next run
+	over    int32       // set when the run has been judged; late timers must not log into the next run
 }
 
 // doCancel cancels the context and stamps the Cancel event after cancel()
@@ -421,15 +451,19 @@ func execRun(rs RunSpec, log *vt.APILog, col *vt.Collector, nostamp bool, deadli
 	case <-finished:
 	case <-time.After(deadline):
 		// Watchdog: is the caller stuck for good?
-		stuck, gs := vt.ConfirmStuck(func() []vt.Goroutine {
+		stuck, gs := vt.ConfirmStuckP(func() []vt.Goroutine {
 			var out []vt.Goroutine
+			self := vt.GoID()
 			for _, g := range vt.Dump() {
+				if g.ID == self {
+					continue // the watchdog itself
+				}
 				if strings.Contains(g.Text, "go.uber.org/cff/scheduler.") || strings.Contains(g.Text, "main.execRun.func") {
 					out = append(out, g)
 				}
 			}
 			return out
-		}, 2*time.Second)
+		}, 2*time.Second, log.Progress)
 		select {
 		case <-finished:
 			stuck = false
@@ -442,7 +476,7 @@ func execRun(rs RunSpec, log *vt.APILog, col *vt.Collector, nostamp bool, deadli
 		select {
 		case <-finished:
 		case <-time.After(10 * deadline):
-			log.Add(vt.APIEvent{Ev: "slow", Run: rs.Run, Note: "caller neither returned nor provably stuck"})
+			log.Add(vt.APIEvent{Ev: "slow", Run: rs.Run, Note: "caller neither returned nor provably stuck: " + summarise(gs)})
 			return true
 		}
 	}
@@ -532,6 +566,11 @@ func main() {
 		rng := rand.New(rand.NewSource(*seed))
 		for k := 1; k <= *runs; k++ {
 			specs = append(specs, genFanin(rng, k, *maxJ, *maxN))
+		}
+	case "pileup":
+		rng := rand.New(rand.NewSource(*seed))
+		for k := 1; k <= *runs; k++ {
+			specs = append(specs, genPileup(rng, k))
 		}
 	case "replay":
 		specs = readSpecs(*in)
